@@ -83,6 +83,12 @@ impl Node {
         Node::new(Id::random(), SocketAddrV4::new((i as u32).into(), i as u16))
     }
 
+    #[cfg(mainline_verif)]
+    #[allow(missing_docs)]
+    pub fn verif_last_seen_ns(&self) -> u64 {
+        self.0.last_seen.as_nanos()
+    }
+
     // === Getters ===
 
     /// Returns the id of this node
